@@ -75,10 +75,11 @@ const (
 	cRelayStalls             // the relay accepts the TCP connection and never answers the WebSocket handshake
 	cBrokerErrorPages        // the broker (a gateway in front of it) answers the next three polls with a 502 page, then serves an echo client
 	cAnswerErrorPage         // the broker answers the proxy's /answer request with a 503 page: the session comes to nothing
+	cLongStay                // echoes like the first kind, then stays connected for 45 s (nine poll intervals at full capacity) before it closes
 	nClientModes
 )
 
-var cModeName = []string{"echo-then-close", "close-at-open", "never-applies-answer", "stalls-during-download-then-closes", "relay-unreachable", "undecodable-offer", "relay-accepts-and-never-answers", "three-502-pages-then-echo", "answer-request-gets-a-503-page"}
+var cModeName = []string{"echo-then-close", "close-at-open", "never-applies-answer", "stalls-during-download-then-closes", "relay-unreachable", "undecodable-offer", "relay-accepts-and-never-answers", "three-502-pages-then-echo", "answer-request-gets-a-503-page", "echo-then-stay-45s"}
 
 type t2Poll struct {
 	n       int
@@ -451,7 +452,7 @@ func t2RunScenarioSettle(capacity uint, modes []int, settle bool) *t2Outcome {
 			close(resume)
 			<-closed
 			return res
-		case cEcho, cBrokerErrorPages:
+		case cEcho, cBrokerErrorPages, cLongStay:
 			for off := 0; off < len(payload); off += 8192 {
 				if err := dc.Send(payload[off:min(off+8192, len(payload))]); err != nil {
 					res.sig, res.msg = "session:send-error", err.Error()
@@ -480,6 +481,9 @@ func t2RunScenarioSettle(capacity uint, modes []int, settle bool) *t2Outcome {
 			if !bytes.Equal(g, payload) {
 				res.sig, res.msg = "session:wrong-echo", "the bytes relayed back through the proxy differ from what the client sent"
 				return res
+			}
+			if mode == cLongStay {
+				time.Sleep(45 * time.Second)
 			}
 		}
 		pc.Close()
@@ -578,7 +582,7 @@ func TestVerifEnumC16T2(t *testing.T) {
 	for m := 0; m < nClientModes; m++ {
 		scen = append(scen, scenario{1, []int{m}})
 	}
-	scen = append(scen, scenario{1, []int{cCloseAtOpen, cEcho}}, scenario{1, []int{cRelayDown, cBadOffer, cEcho}}, scenario{2, []int{cEcho, cEcho}}, scenario{2, []int{cStallDownload, cEcho}}, scenario{3, []int{cEcho, cCloseAtOpen, cRelayDown}}, scenario{1, []int{cRelayStalls, cEcho}}, scenario{1, []int{cBrokerErrorPages, cAnswerErrorPage, cEcho}}, scenario{2, []int{cAnswerErrorPage, cBrokerErrorPages}})
+	scen = append(scen, scenario{1, []int{cCloseAtOpen, cEcho}}, scenario{1, []int{cRelayDown, cBadOffer, cEcho}}, scenario{2, []int{cEcho, cEcho}}, scenario{2, []int{cStallDownload, cEcho}}, scenario{3, []int{cEcho, cCloseAtOpen, cRelayDown}}, scenario{1, []int{cRelayStalls, cEcho}}, scenario{1, []int{cBrokerErrorPages, cAnswerErrorPage, cEcho}}, scenario{2, []int{cAnswerErrorPage, cBrokerErrorPages}}, scenario{1, []int{cLongStay, cEcho}})
 	if r.Thorough() {
 		for a := 0; a < nClientModes; a++ {
 			for b := 0; b < nClientModes; b++ {
